@@ -513,7 +513,11 @@ class EvolvableCNN(EvolvableModule):
                 kernel_size,
             )
         else:
-            return self.add_layer()
+            # Fall back on a mutation that is available (layer mutations are
+            # disabled for the encoders of evolvable networks)
+            if "add_layer" in self.mutation_methods:
+                return self.add_layer()
+            return self.add_channel()
 
         return {"hidden_layer": hidden_layer, "kernel_size": new_kernel_size}
 
